@@ -208,3 +208,28 @@ def run(ctx):
                 ps.verify(ws)
             except pyhf.exceptions.PatchSetVerificationError:
                 ctx.fail('C17/verify-history', 'the restored workspace no longer verifies', {'path': list(path), 'value': val, 'workspace': frozen})
+        # the same history with the workspace held as a pyhf.Workspace object (what a library user passes; the command line passes dicts)
+        try:
+            wobj = pyhf.Workspace(copy.deepcopy(frozen), validate=False)
+        except Exception:  # noqa — the generated document is not always a buildable workspace
+            wobj = None
+        if wobj is not None:
+            try:
+                ps.verify(wobj); ps.apply(wobj, 'name')
+            except Exception as e:  # noqa
+                ctx.fail('C17/verify-correct', f'verification/apply of the correct Workspace object raised {type(e).__name__}', {'workspace': frozen}, str(e)[:100]); wobj = None
+        if wobj is not None:
+            for path, val in rng.sample(lv, min(4, len(lv))):
+                newv = (val + 1) if isinstance(val, (int, float)) and not isinstance(val, bool) else (str(val) + 'x' if val is not None else 0)
+                set_path(wobj, path, newv); ctx.count()
+                for what, call in (('verify', lambda: ps.verify(wobj)), ('apply', lambda: ps.apply(wobj, 'name'))):
+                    try:
+                        call()
+                        ctx.fail('C17/verify-history', f'{what} accepts a Workspace object corrupted in place after an earlier successful verification', {'path': list(path), 'value': val, 'workspace': frozen, 'container': 'pyhf.Workspace'})
+                    except pyhf.exceptions.PatchSetVerificationError:
+                        pass
+                set_path(wobj, path, val)
+                try:
+                    ps.verify(wobj)
+                except pyhf.exceptions.PatchSetVerificationError:
+                    ctx.fail('C17/verify-history', 'the restored Workspace object no longer verifies', {'path': list(path), 'value': val, 'workspace': frozen, 'container': 'pyhf.Workspace'})
